@@ -38,7 +38,8 @@ pub const F_CLOCK_TICK: usize = 24;
 pub const F_ROLL_CALL: usize = 25;
 pub const F_RAMP: usize = 26;
 pub const F_THREAD_HOP: usize = 27;
-pub const N_FAULTS: usize = 28;
+pub const F_ABORTED_FEED: usize = 28;
+pub const N_FAULTS: usize = 29;
 pub const FAULT_NAMES: [&str; N_FAULTS] = [
     "drop",
     "dup",
@@ -68,6 +69,7 @@ pub const FAULT_NAMES: [&str; N_FAULTS] = [
     "roll-call",
     "ramp",
     "thread-hop",
+    "aborted-feed",
 ];
 
 /// Per-property weights. One world, shifted towards the property's subject.
@@ -125,6 +127,52 @@ pub fn add_hops(t: &mut Trace, r: &mut Rng, p: &Preset, stats: &mut Probes) {
     }
     if any {
         stats.faults_fired[F_THREAD_HOP] += 1;
+    }
+}
+
+/// Aborted feeds (a message object whose getter panics, caught by the host) come from the same
+/// lane as the hops, after them: one to three in about one run in 25, each right after an event
+/// that names a channel (so that it tends to hit a channel with state), with a data-entry,
+/// parameter-number or 14-bit controller number or a random one.
+pub fn add_aborts(t: &mut Trace, r: &mut Rng, stats: &mut Probes) {
+    if r.below(1000) >= 40 || t.events.is_empty() {
+        return;
+    }
+    let count = 1 + r.below(3);
+    let mut any = false;
+    for _ in 0..count {
+        let pos = r.below(t.events.len() as u64 + 1) as usize;
+        let inside_soak = t.events.iter().enumerate().any(|(j, e)| match e {
+            Ev::Repeat { k, .. } => pos + (*k as usize) > j && pos <= j,
+            _ => false,
+        });
+        // the channel of the nearest earlier event that names one
+        let ch = t.events[..pos]
+            .iter()
+            .rev()
+            .find_map(|e| match e {
+                Ev::EncCc14 { ch, .. } | Ev::EncPn { ch, .. } | Ev::Poll { ch } => Some(*ch),
+                Ev::Feed { b, .. } if b[0] >= 0x80 && b[0] < 0xF0 => Some(b[0] & 0x0F),
+                _ => None,
+            })
+            .unwrap_or(r.below(16) as u8);
+        let cn = match r.below(4) {
+            0 => *r.pick(&[6u8, 38, 96, 97, 98, 99, 100, 101]),
+            1 => r.below(64) as u8,
+            2 => *r.pick(&[6u8, 38]),
+            _ => r.u7(),
+        };
+        let status = if r.chance(1, 8) { 0x80 | ((r.below(7) as u8) << 4) | ch } else { 0xB0 | ch };
+        let which = *r.pick(&[1u8, 2, 2, 2, 0]);
+        let v = r.u7();
+        if inside_soak {
+            continue;
+        }
+        t.events.insert(pos, Ev::FeedAbort { b: [status, cn, v], which });
+        any = true;
+    }
+    if any {
+        stats.faults_fired[F_ABORTED_FEED] += 1;
     }
 }
 
